@@ -404,6 +404,35 @@ func (t *translator) block(stmts []ast.Stmt, ind string, declared map[string]boo
 					continue
 				}
 			}
+			// parallel assignment of plain integer expressions: a, b := x, y  (all right-hand sides are evaluated first)
+			if len(v.Lhs) == len(v.Rhs) && len(v.Lhs) > 1 && (v.Tok == token.DEFINE || v.Tok == token.ASSIGN) {
+				okAll := true
+				for k := range v.Lhs {
+					if _, isId := v.Lhs[k].(*ast.Ident); !isId || t.bools[exprStr(v.Lhs[k])] {
+						okAll = false
+					}
+				}
+				if okAll {
+					tmps := make([]string, len(v.Rhs))
+					for k := range v.Rhs {
+						tmps[k] = fmt.Sprintf("par%d_%d", fset.Position(v.Pos()).Line, k)
+						sb.WriteString(ind + "let " + tmps[k] + " : Int := " + t.intExpr(v.Rhs[k]) + "\n")
+					}
+					for k := range v.Lhs {
+						name := exprStr(v.Lhs[k])
+						if name == "_" {
+							continue
+						}
+						if v.Tok == token.DEFINE && !declared[name] {
+							sb.WriteString(ind + "let mut " + name + " : Int := " + tmps[k] + "\n")
+							declared[name] = true
+						} else {
+							sb.WriteString(ind + name + " := " + tmps[k] + "\n")
+						}
+					}
+					continue
+				}
+			}
 			if len(v.Lhs) != 1 || len(v.Rhs) != 1 {
 				t.failf("unsupported assignment %s", exprStr(v.Lhs[0]))
 				continue
